@@ -4,7 +4,7 @@
 From Coq Require Import ZArith List Lia Bool Sorted RelationClasses.
 From Low Require Import Lib.MachInt Lib.Bits Lib.BitSeq Lib.Lex Lib.Bytes Lib.BitsExtra_tree Lib.LexLemmas_bw
   Spec.Bmtree Spec.PathSpec Spec.FromStr32Spec Spec.PathsOfSortedSpec
-  Model.BmtreePath Model.BmtreePathStr Model.FromStr32
+  Model.BmtreePath Model.BmtreePathStr Model.FromStr32 Model.FromStr32Variants
   Proofs.BmtreePathProofs Proofs.FromStr32Proofs.
 Import ListNotations.
 Open Scope Z_scope.
@@ -351,4 +351,63 @@ Proof.
   rewrite A1, A2, A. clear E1 E2 E A1 A2 A.
   unfold split_ok. cbn [fst snd]. rewrite !andb_true_iff. repeat split. 1-2: lia.
   destruct (Z.ltb_spec k1 w1); [|reflexivity]. apply Z.eqb_eq. now apply Hz.
+Qed.
+
+(** * the clip of the byte limit at ceil(tobit/8) is only an optimisation
+
+    FromStr32 clips [l := min(len(s), (tobit+7)>>3)] before the nested loads.  [FromStr32_noclip]
+    (Model/FromStr32Variants.v) is FromStr32 with that clip removed ([l := len(s)]); on the domain
+    of the property it returns the same result: the bytes beyond ceil(tobit/8) land in
+    the low [40 - spanSize] bits of the window, which are shifted out.  (This is why
+    the mutants "clip removed" / "(tobit+8)>>3" are equivalent, docs/selftest-C11.md.) *)
+Ltac Zify.zify_post_hook ::= Z.div_mod_to_equations.
+
+(** any byte limit between the clipped one and the string length selects the same bits *)
+Lemma window_select s from w l :
+  bytes_ok s -> 0 <= from -> 1 <= w <= 32 ->
+  Z.min (zlen s) ((from + w + 7) / 8) <= l <= zlen s ->
+  (window s (from / 8) l / 2 ^ (40 - (from + w - 8 * (from / 8)))) mod 2 ^ w = val_msb (spec_bits s from w).
+Proof.
+  intros Hs Hf Hw Hl.
+  set (sh := 40 - (from + w - 8 * (from / 8))).
+  assert (Hsh : 1 <= sh <= 40) by (subst sh; lia).
+  apply spec_value_eq; [lia|lia|apply Z.mod_pos_bound; apply pow2_pos; lia|].
+  intros n Hn. rewrite Z.mod_pow2_bits_low by lia. rewrite Z.div_pow2_bits by lia.
+  set (t := from mod 8 + (w - 1 - n)).
+  assert (Ht : 0 <= t < 40) by (subst t; lia).
+  replace (n + sh) with (39 - t) by (subst t sh; lia).
+  rewrite window_mbit; [f_equal; subst t; lia|assumption|lia|lia|lia|].
+  subst t. lia.
+Qed.
+
+Lemma FromStr32_noclip_same s from w :
+  bytes_ok s -> 0 <= from -> 0 <= w <= 32 -> from + w + 7 < 2 ^ 31 -> 8 * zlen s < 2 ^ 31 ->
+  FromStr32_noclip s from (from + w) = FromStr32 s from (from + w).
+Proof.
+  intros Hs Hf Hw Hov Hlen. rewrite FromStr32_spec by assumption.
+  unfold FromStr32_noclip, spec_FromStr32. cbv zeta. fold (spec_bits s from w).
+  assert (Hz : 0 <= zlen s) by (unfold zlen; lia).
+  replace (from + w - from) with w by lia. rewrite land_m8.
+  rewrite (i32_id w) by lia.
+  rewrite (i32_id (zlen s * 8)) by lia.
+  rewrite (i32_id (zlen s * 8 - from)) by lia.
+  rewrite (i32_id (from + w - 8 * (from / 8))) by lia.
+  rewrite (i32_id (zlen s)) by lia.
+  unfold sar32. change (3 <? 32) with true. cbv iota. change (2 ^ 3) with 8.
+  set (k := if zlen s * 8 - from >? w then w else zlen s * 8 - from).
+  assert (Hk : k = Z.min (8 * zlen s - from) w) by (subst k; destruct (zlen s * 8 - from >? w) eqn:E; lia).
+  clearbody k.
+  destruct (Z.leb_spec k 0) as [Hk0|Hk0].
+  - f_equal. f_equal.
+    + unfold spec_k, clamp. lia.
+    + apply spec_value_eq; [lia|lia|pose proof (pow2_pos w); lia|].
+      intros n Hn. rewrite Z.bits_0. symmetry. apply mbit_outside. lia.
+  - rewrite gather_window by (assumption || lia).
+    rewrite MaskAt_ok by lia.
+    rewrite (i32_id (40 - (from + w - 8 * (from / 8)))) by lia.
+    destruct (Z.ltb_spec (40 - (from + w - 8 * (from / 8))) 0) as [Hneg|_]; [lia|].
+    rewrite shr64_div by lia. rewrite land_mask by lia.
+    f_equal. f_equal.
+    + unfold spec_k, clamp. lia.
+    + apply window_select; (assumption || lia).
 Qed.
